@@ -325,7 +325,7 @@ def r_purge_races_pageout(ctx):
         ip = Interp(repo, call_models=MODELS, raising=lambda d: "builtins.FileNotFoundError" if d["name"].rsplit(".", 1)[-1] == "SharedMemory" else None)
         ps = [p for p in ip.explore(pfi, env=env2, args={"key": "k", "is_exit": False})
               if any(e.kind == "raise" and e.data.get("from_call") for e in p.effects)]
-        if len(ps) != 1 or ps[0].exit[0] != "return":
+        if len(ps) != 1 or ps[0].exit[0] not in ("return", "raise"):  # a purge that reports the failure to its caller is as good as one that logs it
             from ..repo import AnalysisError
             raise AnalysisError(f"purge with a vanished segment: {[(p.exit[0], vkey(p.exit[1])[:60]) for p in ps]}")
         p = ps[0]
@@ -593,6 +593,26 @@ def r_purge(ctx):
                           f"every dataset that may own a segment ({need}: being written, readable, being paged out or in) must be purged with is_exit=True, else the segment stays in /dev/shm")
         else:
             ctx.ok(rid, loc(ax), "atexit purges every dataset with is_exit=True, then cleans the disk area")
+    # one segment is already gone (a writer killed before it created it, a page-out that just unlinked it): the clean-up goes on with the others
+    model2 = {f"k-{i}": dset("in_memory", name=f"d-{i}") for i in range(3)}
+    ip = Interp(repo, call_models=MODELS, inline=INL, max_concrete_iter=40,
+                raising=lambda d: "builtins.FileNotFoundError" if d["name"].rsplit(".", 1)[-1] == "SharedMemory" and any(
+                    getattr(a, "fields", {}).get("shmid") == "shm-d-0" or a == "shm-d-0" for a in list(d["args"]) + list(d["kwargs"].values())) else None)
+    n2 = 0
+    for p in ip.explore(ax, env={"self.datasets": model2, "self.free_space": 0}):
+        if not any(e.kind == "raise" and e.data.get("from_call") for e in p.effects):
+            continue
+        n2 += 1
+        unl = [e for e in p.effects if e.kind == "call" and e.data.get("method") == "unlink"]
+        dk = [e for e in p.effects if e.kind == "call" and e.data.get("method") == "atexit" and (e.data.get("field") or "").endswith("Manager.disk")]
+        if p.exit[0] != "return" or len(unl) != 2 or not dk:
+            ctx.violation(rid, ax.qual, loc(ax), "exit cleanup survives a vanished segment",
+                          f"three resident datasets, the segment of the first is already gone (opening it raises FileNotFoundError): Manager.atexit ends with {p.exit[0]}, "
+                          f"unlinks {len(unl)} of the 2 remaining segments, disk.atexit called={bool(dk)} — the clean-up must go on, else the other segments stay in /dev/shm "
+                          f"after the executor has exited")
+        else:
+            ctx.ok(rid, loc(ax), "atexit: a vanished segment does not stop the clean-up of the others")
+    ctx.floor(rid + ".atexit_fault_paths", n2, 1)
 
 
 def r_close_callback(ctx):
@@ -1155,6 +1175,45 @@ def r_disk_copy(ctx):
         ctx.violation(rid, fi.qual, loc(fi), "page-in reads the file page-out wrote", f"page-in opens {vkey(pin[0].data['args'][0])}, page-out writes '/spill/s1'")
     elif pin:
         ctx.ok(rid, loc(fi), "page-in opens the file page-out wrote")
+
+
+def r_server_shutdown(ctx):
+    """C05 / C09: the shutdown command ends the server loop at once — answered 'ok' exactly once, to the requester, whatever the store holds
+    (a reader that never closed: a worker killed mid-task, the data server in the middle of a transmit).  `Executor.terminate` asks once
+    and then joins the process; a server that answers 'wait' or goes on serving is left behind with its segments when the executor exits."""
+    repo = ctx.repo
+    fi = repo.func(f"{SRV}.start")
+    ctx.analysed(fi.qual)
+    rid = f"{ctx.pid}.SHUTDOWN"
+    client = Atom("client-1")
+    n = 0
+    for label, dsets in (("empty store", {}), ("a dataset with a reader that never closed", {"k": dset("in_memory", readers={"r": NOW - 9}, name="d")}),
+                         ("a dataset still being written", {"k": dset("created", name="d")})):
+        def m_receive(run, a, k, n_, f):
+            c = getattr(run, "_rcv", 0)
+            run._rcv = c + 1
+            if c == 0:
+                return (Obj(f"{API}.ShutdownCommand", {}, name="shutdown"), client)
+            return (Obj(f"{API}.StatusInquiry", {}, name="later"), Atom("client-2"))
+        ip = Interp(repo, call_models={**MODELS, f"{SRV}.receive": m_receive}, opaque={f"{SRV}.respond"}, inline=INL, max_while=2)
+        paths = ip.explore(fi, env={"self.manager.free_space": 3, "self.manager.datasets": dsets}, args={})
+        ctx.evals(len(paths))
+        for p in paths:
+            n += 1
+            rs = _responses(p)
+            mine = [r for r, dst in rs if dst is client]
+            served_more = getattr(p, "heap", {}) is not None and any(dst is not client for _, dst in rs)
+            spin = any(e.kind == "loop_exit" and e.data.get("bound") for e in p.effects) or p.exit[0] == "trunc"
+            okk = p.exit[0] == "return" and not spin and not served_more and len(mine) == 1 and isinstance(mine[0], Obj) and not mine[0].fields.get("error")
+            if not okk:
+                ctx.violation(rid, fi.qual, loc(fi), "shutdown ends the server loop",
+                              f"shutdown command with {label}: the loop {'keeps serving' if (spin or served_more) else 'ends with ' + p.exit[0]}, answers to the requester "
+                              f"{[vkey(r)[:60] for r in mine]} — expected one OkResponse without error and the end of the loop; the executor asks once and exits, so a "
+                              f"server that defers stays behind with every segment it holds")
+                break
+        else:
+            ctx.ok(rid, loc(fi), f"shutdown | {label}: answered ok once, loop ends")
+    ctx.floor(rid + ".paths", n, 3)
 
 
 def r_client_failures(ctx):
